@@ -58,7 +58,10 @@ structure Input where
   backend : String         -- annotation: "mem" (instrumented store) | "dir" (real x509TrustStore)
   format : String          -- annotation: "jws" | "cose"
   kind : String            -- annotation: "oci" (Verify) | "blob" (VerifyBlob; the blob document's
-                           -- statements are selected by name: encoded as `scopes := [name]`, `repo := name`)
+                           -- statements are selected by name: encoded as `scopes := [name]`, `repo := name`;
+                           -- names are compared as exact strings - "Payments" / "payments" / "prod " differ)
+                           -- | "load" (concurrency stage: a direct GetCertificates on the real store, recorded
+                           -- as the verification of a chain made of exactly what that store must return)
   history : List String    -- MUST NOT MATTER: the verifications the SAME verifier instance (and the same
                            -- trust store object) performed before this one - other scheme, other chain,
                            -- other statement, the same statement name in the other document kind, the
